@@ -71,6 +71,22 @@ fn c03_layout_independence() {
       let wantev: Vec<String> = std::iter::once(format!("S{}", base_h + 1)).chain((1..6u64).map(|i| format!("B{}:{}", base_h + i, short(&want[i as usize])))).chain(std::iter::once(format!("C{}", base_h + 5))).collect();
       let gotev: Vec<String> = match &ev { Ok(v) => v.iter().map(|e| match e { Event::Start(h) => format!("S{}", h), Event::Block(h, x) => format!("B{}:{}", h, short(x)), Event::Complete(h) => format!("C{}", h) }).collect(), Err(m) => vec![format!("ERR {}", m)] };
       check(gotev == wantev, suite, "C03:block_comes_from_file_and_offset_of_its_index_record", "index holding only heights 3000000..=3000005, --start 3000001", &format!("{:?}", gotev), &format!("{:?}", wantev)); }
+    // (f) consecutive heights alternate between two files, and each block sits at exactly the offset where the previous
+    //     height's block ENDS in the other file ("the next record") -- the position inside one file says nothing about another
+    { cases += 1; let mut d = DataDir::new();
+      let foreign = make_chain(2, &mut |_| vec![TxSpec::new(vec![TxIn::new([8; 32], 0, vec![4, 5, 6])], vec![TxOut::new(2, vec![0x52])])]);
+      let mut next_off = 8u64;
+      let mut lens = [0u64; 2];
+      for h in 0..6u64 { let f = (h % 2) as usize; let raw = chain[h as usize].ser();
+          // pad the file with well-formed foreign records and a few bytes so that the block's data offset is next_off
+          let mut gap: Vec<u8> = Vec::new();
+          while lens[f] + gap.len() as u64 + 8 < next_off { let fr = foreign[(gap.len() % 2) as usize].ser(); let room = next_off - 8 - lens[f] - gap.len() as u64;
+              if room >= fr.len() as u64 + 8 { gap.extend_from_slice(&0xd9b4bef9u32.to_le_bytes()); gap.extend_from_slice(&(fr.len() as u32).to_le_bytes()); gap.extend_from_slice(&fr); } else { gap.extend(vec![0u8; room as usize]); } }
+          let off = d.put_block(f as u64, 0xd9b4bef9, &raw, &gap);
+          lens[f] = off + raw.len() as u64;
+          d.recs.push(IndexRec { hash: chain[h as usize].hash(), version: 1, height: h, status: ST_ACTIVE, ntx: 1, file: f as u64, offset: off, header: None });
+          next_off = off + raw.len() as u64 + 8; }
+      d.write(); cmp_delivery(suite, "C03:block_comes_from_file_and_offset_of_its_index_record", "heights alternate between two files, each block at the offset where the previous one ends in the other file", fetch_all(&d, "bitcoin", 6, false), &want); }
     // (e) the layouts (a) and (b) again in an XOR-obfuscated directory (Core 28+): offsets of every residue mod the key length
     for key in [vec![0x5au8, 0x01, 0xc3, 0x7e, 0x99, 0x10, 0xe4, 0x2b], vec![0xa1, 0x3c, 0x5e, 0x77, 0x09, 0xd2, 0x4b, 0xa1]] {
       cases += 1; let mut d = DataDir::new();
